@@ -56,6 +56,13 @@ class Closure:
         self.node, self.scope = node, scope
 
 
+class Method:
+    """a method of the class under translation bound to a symbolic `self`: executed symbolically when called"""
+
+    def __init__(self, closure, self_obj):
+        self.closure, self.self_obj = closure, self_obj
+
+
 class Prim:
     """a callable known to the executor: fn(ex, node, args, kwargs) -> value"""
 
@@ -236,6 +243,7 @@ class Executor:
         self.opaque = opaque or {}
         self.depth = 0
         self.dyn = 0
+        self.obj_methods = {}      # record name -> {method name -> fn(ex, node, receiver, args, kwargs)}
 
     # ---- expressions
     def dotted(self, n):
@@ -456,6 +464,10 @@ class Executor:
                 if isinstance(recv, Obj) and n.func.attr in recv.fields:
                     f = recv.fields[n.func.attr]
                     return self.apply(f, n, sc)
+                if isinstance(recv, Obj) and n.func.attr in self.obj_methods.get(recv.name, {}):
+                    args = [self.expr(a, sc) for a in n.args]
+                    kwargs = {k.arg: self.expr(k.value, sc) for k in n.keywords}
+                    return self.obj_methods[recv.name][n.func.attr](self, n, recv, args, kwargs)
                 fail(n, "unsupported method call")
         f = self.expr(n.func, sc)
         return self.apply(f, n, sc)
@@ -469,6 +481,8 @@ class Executor:
             return f.fn(self, n, args, kwargs)
         if isinstance(f, Closure):
             return self.invoke(f, args, kwargs, n)
+        if isinstance(f, Method):
+            return self.invoke(f.closure, [f.self_obj] + list(args), kwargs, n)
         if isinstance(f, Obj) and isinstance(f.fields.get("__call__"), Prim):
             return f.fields["__call__"].fn(self, n, args, kwargs)
         fail(n, "call of an unknown function")
@@ -767,6 +781,69 @@ def _p_scan(ex, n, args, kwargs):
     return (Sc("R", f"(fst {t})"), Vec.base(f"(snd {t})", "R"))
 
 
+def _tuple_term(ts):
+    return ts[0] if len(ts) == 1 else "(" + ", ".join(ts) + ")"
+
+
+def _flat_fields(v, n, what):
+    """ordered (name, Sc) fields of a record-like value whose fields are all scalars / opaque terms"""
+    if isinstance(v, Sc):
+        return [("", v)]
+    if isinstance(v, Static) and v.v is None:
+        return []
+    if isinstance(v, Obj):
+        out = []
+        for k in sorted(v.fields):
+            x = v.fields[k]
+            if isinstance(x, Num):
+                x = to_sc(x, "R", n)
+            if isinstance(x, Static) and x.v is None:
+                continue
+            if not isinstance(x, Sc):
+                fail(n, f"{what}: field {k} is not a scalar value")
+            out.append((k, x))
+        return out
+    fail(n, f"{what}: unsupported structure")
+
+
+def _p_filter_scan(ex, n, args, kwargs):
+    """filter_scan(f, init, keys) over a symbolic vector of keys with a record-like carry: printed as kfoldmap"""
+    if len(args) != 3 or kwargs or not isinstance(args[0], Closure):
+        fail(n, "filter_scan form")
+    f, init, keys = args
+    if not (isinstance(keys, Vec) and keys.ety == "K"):
+        fail(n, "filter_scan over something else than a vector of keys")
+    d = ex.depth
+    cf = _flat_fields(init, n, "scan carry")
+    names = [f"c{i}__{d}" for i in range(len(cf))]
+    carry = Obj({k: Sc(v.ty, nm) for (k, v), nm in zip(cf, names)}, getattr(init, "name", "carry")) if isinstance(init, Obj) else Sc(cf[0][1].ty, names[0])
+    if isinstance(init, Obj):
+        for k, v in init.fields.items():      # static (None) fields are carried as they are
+            if k not in carry.fields:
+                carry.fields[k] = v
+    out = ex.invoke(f, [carry, Sc("K", f"k__{d}")], {}, n)
+    if not (isinstance(out, tuple) and len(out) == 2):
+        fail(n, "scan body must return (carry, output)")
+    c2 = _flat_fields(out[0], n, "scan carry")
+    if [k for k, _ in c2] != [k for k, _ in cf]:
+        fail(n, "scan body changes the structure of the carry")
+    o2 = _flat_fields(out[1], n, "scan output")
+    body = f"({_tuple_term([v.t for _, v in c2])}, {_tuple_term([v.t for _, v in o2]) if o2 else 'tt'})"
+    fn = f"(fun c__{d} k__{d} => let '{_tuple_term(names)} := c__{d} in {body})"
+    T = f"(kfoldmap {fn} {_tuple_term([v.t for _, v in cf])} {materialise(keys)})"
+
+    def proj(i, m, of):
+        vs = [f"p{j}__" for j in range(m)]
+        return f"(let '{_tuple_term(vs)} := {of} in {vs[i]})"
+    fin = {k: Sc(v.ty, proj(i, len(cf), f"(fst {T})")) for i, (k, v) in enumerate(cf)}
+    final = Obj(dict(getattr(init, "fields", {}), **fin), getattr(init, "name", "carry")) if isinstance(init, Obj) else fin[""]
+    if not o2:
+        return (final, Static(None))
+    ovs = [f"o{j}__" for j in range(len(o2))]
+    outs = {k: Vec.base(f"(map (fun r__ => let '{_tuple_term(ovs)} := r__ in {ovs[i]}) (snd {T}))", v.ty) for i, (k, v) in enumerate(o2)}
+    return (final, Obj(outs, getattr(out[1], "name", "rows")) if isinstance(out[1], Obj) else outs[""])
+
+
 def _p_split(ex, n, args, kwargs):
     if kwargs:
         fail(n, "split keywords")
@@ -777,7 +854,7 @@ def _p_split(ex, n, args, kwargs):
     if len(args) == 2:
         if isinstance(args[1], Sc) and args[1].ty == "Z":
             # a symbolic number of keys: the vector jr.split(key, n) as the list of key paths split_keys k n
-            return Vec.base(f"(split_keys {k.t} (Z.to_nat {args[1].t}))", "K")
+            return Vec.base(f"(ksplit_keys {k.t} (Z.to_nat {args[1].t}))", "K")
         if not (isinstance(args[1], Num) and args[1].q.denominator == 1):
             fail(n, "split count must be a literal")
         cnt = int(args[1].q)
@@ -843,7 +920,7 @@ BUILTIN_PRIMS = {
     "jnp.minimum": Prim(_binfn("min", "Z.min")), "jnp.maximum": Prim(_binfn("max", "Z.max")),
     "jnp.clip": Prim(_p_clip), "jnp.where": Prim(_p_where), "lax.select": Prim(_p_where), "lax.cond": Prim(_p_cond),
     "jnp.mean": Prim(_p_mean), "jnp.sum": Prim(_p_sum), "jnp.concatenate": Prim(_p_concatenate),
-    "lax.scan": Prim(_p_scan), "jr.split": Prim(_p_split), "jax.random.split": Prim(_p_split),
+    "lax.scan": Prim(_p_scan), "filter_scan": Prim(_p_filter_scan), "jr.split": Prim(_p_split), "jax.random.split": Prim(_p_split),
     "eqx.error_if": Prim(_p_error_if), "jax.tree.map": Prim(_p_tree_map), "jax.tree_util.tree_map": Prim(_p_tree_map),
     "jnp.arange": Prim(_p_arange), "jax.vmap": Prim(_p_vmap), "jnp.argmax": Prim(_p_argmax),
     "jax.lax.stop_gradient": Prim(_p_identity), "lax.stop_gradient": Prim(_p_identity), "jnp.isfinite": Prim(_p_isfinite),
